@@ -18,7 +18,7 @@ RULE = ('quick: every outline AST with <=4 nodes and nesting <=2 over {step, if/
         'scripts to length 12; non-trivial when at least one predicate or >=2 calls were made')
 RULE += ('; also: steps that register awaitables, a description of the outline asked for first, decorated step functions, chains with a required output nobody emits')
 ASSUMPTIONS = ['predicates return real booleans', 'ToContext returns are C10\'s business', 'interpreter written from the property statement']
-REQUIRED = ['runs', 'ended/return', 'ended/value', 'ended/end', 'nodes/if', 'nodes/while', 'nodes/ret', 'calls_compared', 'falsy_stop_values', 'steps_registering_awaitables', 'value_with_awaitable', 'described_first', 'required_output_missing', 'decorated_steps_called', 'non_bool_predicates', 'outline_names_base_functions', 'empty_context_assignments', 'awaitable_stop_values']
+REQUIRED = ['runs', 'ended/return', 'ended/value', 'ended/end', 'nodes/if', 'nodes/while', 'nodes/ret', 'calls_compared', 'falsy_stop_values', 'steps_registering_awaitables', 'value_with_awaitable', 'described_first', 'required_output_missing', 'decorated_steps_called', 'non_bool_predicates', 'outline_names_base_functions', 'empty_context_assignments', 'awaitable_stop_values', 'mapping_stop_values']
 EXHAUSTIVE = {'quick': True, 'thorough': False}
 BOUNDS = {'quick': 'ASTs <=4 nodes depth<=2, predicate scripts <=4, exhaustive after de-duplication', 'thorough': '+5-node ASTs sampled, 4000 random ASTs depth<=4'}
 STOPVALS = [0, '', False, 7]
@@ -67,7 +67,7 @@ def gen_cases(tier, seed):
                         yield {'ast': ast, 'preds': p[:np] if np <= len(p) else p, 'rets': r2, 'empty_tc': True}
                     if how == 'value' and len(seen) % 2 == 0:
                         # the same run with the value that stops the chain being an awaitable object
-                        yield {'ast': ast, 'preds': p[:np] if np <= len(p) else p, 'rets': list(r[:ns - 1]) + ['@AW'], 'awaitable_value': True}
+                        yield {'ast': ast, 'preds': p[:np] if np <= len(p) else p, 'rets': list(r[:ns - 1]) + [('@AW', '@MAP0', '@MAP1')[(len(seen) // 2) % 3]], 'awaitable_value': True}
                     if ns and len(seen) % 5 == 3:
                         # the same run in a subclass that overrides some of the steps while the outline names the base class's functions
                         yield {'ast': ast, 'preds': p[:np] if np <= len(p) else p, 'rets': r[:ns], 'shadowed': True}
@@ -96,9 +96,10 @@ def run_case(case):
     obs = {'runs': 1, 'ended': {how: 1}, 'nodes': {}, 'calls_compared': 0, 'falsy_stop_values': 0, 'described_first': 0}
     if how == 'budget':
         return {'viol': [], 'obs': obs, 'inconclusive': 'interpreter-budget', 'key': case, 'nontrivial': False}
-    if exp_result == '@AW' and how == 'value':
-        exp_result = outlines.HANDLE
-    obs['awaitable_stop_values'] = int(exp_result is outlines.HANDLE)
+    obs['awaitable_stop_values'] = obs['mapping_stop_values'] = 0
+    if isinstance(exp_result, str) and exp_result in outlines.SPECIAL_STOPS and how == 'value':
+        obs['awaitable_stop_values' if exp_result == '@AW' else 'mapping_stop_values'] = 1
+        exp_result = outlines.SPECIAL_STOPS[exp_result]
     cls = outlines.outline_class(ast, must=bool(case.get('must')), shadowed=bool(case.get('shadowed')))
     obs['outline_names_base_functions'] = int(bool(case.get('shadowed')))
     obs['empty_context_assignments'] = int(bool(case.get('empty_tc')))
